@@ -1,7 +1,7 @@
 (* driver `sensor` (C08): case type, model-vs-implementation comparison and the
    verified boolean observers of the property on the implementation's own
    sequence of averages. *)
-From F2G Require Export Drv.Common Model.Util Model.Sensor.
+From F2G Require Export Drv.Common Model.Util Model.Sensor Proofs.Sensor.
 From Coq Require Import Lia SpecFloat.
 
 (* how the driver produced the initial average *)
@@ -57,12 +57,8 @@ Definition pvalue (k : kind) (r : reading) : option f64 :=
   | ValF f => match k with KCmd => if is_finite f then Some f else None | _ => None end
   end.
 
-(* a <= b on floats, false if either is NaN *)
-Definition fle (a b : f64) : bool := PrimFloat.leb a b.
-
-(* the average lies between two of the values seen so far (initial value included) *)
-Definition in_hullb (seen : list f64) (a : f64) : bool :=
-  existsb (fun v => fle v a) seen && existsb (fun v => fle a v) seen.
+(* fle, in_hull (Model/Sensor.v) and in_hullb, in_hullb_spec (Proofs/Sensor.v): the average lies
+   between two of the values seen so far (initial value included) *)
 
 (* per-step contraction, exact integer arithmetic in units of 2^-1074:
      n*|x - a'| <= (n-1)*|x - a| + n*(2^-51 * max(|x|,|a|) + 2^-1074)            *)
@@ -91,14 +87,6 @@ Definition holdsb (c : case) : bool :=
   else o_ok c && is_finite (o_init c) && walkb (c_kind c) (c_n c) [o_init c] (o_init c) (c_reads c) (o_avgs c).
 
 (* ---- Prop forms and the proof that the observers decide them ---- *)
-Definition in_hull (seen : list f64) (a : f64) : Prop :=
-  (exists v, In v seen /\ fle v a = true) /\ (exists v, In v seen /\ fle a v = true).
-
-Lemma in_hullb_spec seen a : in_hullb seen a = true <-> in_hull seen a.
-Proof.
-  unfold in_hullb, in_hull. rewrite andb_true_iff, !existsb_exists. tauto.
-Qed.
-
 Definition contracts (n : Z) (a x a' : f64) : Prop :=
   exists A X A', fz a = Some A /\ fz x = Some X /\ fz a' = Some A' /\
     n * Z.abs (X - A') * 2 ^ 51 <= (n - 1) * Z.abs (X - A) * 2 ^ 51 + n * (Z.max (Z.abs X) (Z.abs A) + 2 ^ 51).
@@ -139,12 +127,10 @@ Qed.
    trigger class: the model reproduces the observation (so it is UpdateSimpleMovingAvg itself,
    not the fault handling) and some reading, the initial value or an observed average is outside
    the guard of theorem C08_hull:
-     n >= 2 : magnitude above 2^1022 (or non-finite)
-     n  = 1 : not an integer of magnitude <= 2^52 *)
-Definition two1022 : f64 := 0x1p1022%float.
-Definition boundedb (v : f64) : bool := PrimFloat.leb (PrimFloat.abs v) two1022.
+     n >= 2 : magnitude above 2^1021 (or non-finite)        (boundedb, Model/Sensor.v)
+     n  = 1 : not an integer of magnitude below 2^52 *)
 Definition small_intb (v : f64) : bool :=
-  PrimFloat.leb (PrimFloat.abs v) 0x1p52%float && feqb (i2f (f2i v)) (PrimFloat.add v 0).
+  PrimFloat.ltb (PrimFloat.abs v) 0x1p52%float && feqb (i2f (f2i v)) (PrimFloat.add v 0).
 
 Definition in_guardb (n : Z) (v : f64) : bool := if n =? 1 then small_intb v else boundedb v.
 
